@@ -367,8 +367,8 @@ func (i *Inc) auto(m message.Message) {
 		b.nUp++
 		st := &UpStream{ID: mkID(0xa0, b.nUp), N: b.nUp, QoS: r.QoS, Aliases: map[uint32]*message.DataID{}}
 		b.Ups[st.ID] = st
+		al := i.nextUpAl // aliases are assigned from 0: 0 is an alias like any other (and what a refusal's alias field holds)
 		i.nextUpAl++
-		al := i.nextUpAl
 		i.upByAlias[al] = st
 		// pre-registered data ids get aliases right away
 		pre := map[uint32]*message.DataID{}
@@ -396,8 +396,8 @@ func (i *Inc) auto(m message.Message) {
 			code = message.ResultCodeStreamNotFound
 		}
 		if code == ok {
-			i.nextUpAl++
 			al = i.nextUpAl
+			i.nextUpAl++
 			i.upByAlias[al] = st
 		}
 		b.mu.Unlock()
